@@ -33,8 +33,8 @@ THEOREMS = [
     "C16_generated_dataflow", "C16_islice", "C16_spec", "C16_written", "C16_identity", "C16_count_zero_unlimited",
     "C16_mode_independent", "C16_engine_flag", "C16_engine_independent", "C16_abort_flushed", "C16_failure_isolated",
     "C16_record_stream", "C16_uri_carries_query", "C16_writer_uri_verbatim", "C16_unparenthesised_join_refuted",
-    "C16_split_uri", "C16_split_uri_parameters", "C16_split_uri_plain", "C16_multi_timestamp_fields",
-    "C16_multi_timestamp_metadata_partial", "C16_multi_timestamp_metadata_refuted", "C16_hyp_satisfiable",
+    "C16_split_uri", "C16_split_uri_parameters", "C16_split_uri_plain", "C16_generated_expand_metadata",
+    "C16_multi_timestamp", "C16_multi_timestamp_uncopied_metadata_refuted", "C16_hyp_satisfiable",
 ]
 
 RESERVED = ["_source", "_classification", "_generated", "_version"]
@@ -462,22 +462,14 @@ class Mismatch(Exception):
     pass
 
 
-def meta_known_gap(exp, got_meta):
-    """--multi-timestamp: the expanded record has _source/_classification None and a fresh _generated"""
-    return got_meta["_source"] is None and got_meta["_classification"] is None
-
-
 def compare_views(exp, got, st):
-    """record-for-record, deep observation; st collects the multi-timestamp metadata finding"""
+    """record-for-record, deep observation (fields, values and the four reserved fields)"""
     if len(exp) != len(got):
         raise Mismatch("%d records in the output, expected %d" % (len(got), len(exp)))
     for i, (e, g) in enumerate(zip(exp, got)):
         if obs_view(e, False) != obs_view(g, False):
             raise Mismatch("record %d differs: got %r, expected %r" % (i, obs_view(g, False), obs_view(e, False)))
         if obs_view(e) != obs_view(g):
-            if e.get("expanded") and meta_known_gap(e, g["meta"]):
-                st["meta_gap"] = st.get("meta_gap", 0) + 1
-                continue
             raise Mismatch("record %d metadata differs: got %r, expected %r" % (i, obs_view(g)[3], obs_view(e)[3]))
 
 
@@ -494,17 +486,7 @@ def compare_json_docs(exp, docs, st, file_mode=False):
         raise Mismatch("%d JSON records in the output, expected %d" % (len(recs), len(exp)))
     for i, (e, d) in enumerate(zip(exp, recs)):
         want = json_doc(e)
-        if e.get("expanded"):
-            w2 = [(k, x) for k, x in want if k not in RESERVED]
-            d2 = [(k, x) for k, x in d if k not in RESERVED]
-            if w2 != d2:
-                raise Mismatch("JSON record %d differs: got %r, expected %r" % (i, d2, w2))
-            if want != d:
-                if dict(d).get("_source") is None and dict(d).get("_classification") is None:
-                    st["meta_gap"] = st.get("meta_gap", 0) + 1
-                    continue
-                raise Mismatch("JSON record %d metadata differs: got %r" % (i, d))
-        elif want != d:
+        if want != d:
             raise Mismatch("JSON record %d differs: got %r, expected %r" % (i, d, want))
 
 
@@ -541,13 +523,6 @@ def compare_csv(exp, text, wfields, wexclude, st):
                 raise Mismatch("CSV header row %d is %r, expected %r" % (i, row, cols))
             continue
         cells = ["" if slot_value(e, k) is None else str(slot_value(e, k)) for k in cols]
-        if e.get("expanded"):
-            keep = [j for j, k in enumerate(cols) if k not in RESERVED]
-            if len(row) != len(cols) or [row[j] for j in keep] != [cells[j] for j in keep]:
-                raise Mismatch("CSV row %d is %r, expected %r" % (i, row, cells))
-            if row != cells:
-                st["meta_gap"] = st.get("meta_gap", 0) + 1
-            continue
         if row != cells:
             raise Mismatch("CSV row %d is %r, expected %r" % (i, row, cells))
 
@@ -578,14 +553,6 @@ def compare_line(exp, text, wfields, wexclude, verbose, st):
             raise Mismatch("record header %d has number %d" % (i + 1, num))
         cols = asdict_keys(e, wfields, wexclude)
         want = [(k, slot_type(e, k) if verbose else None, "{}".format(slot_value(e, k))) for k in cols]
-        if e.get("expanded"):
-            w2 = [x for x in want if x[0] not in RESERVED]
-            i2 = [x for x in items if x[0] not in RESERVED]
-            if w2 != i2 or len(want) != len(items):
-                raise Mismatch("line-mode record %d is %r, expected %r" % (i + 1, items, want))
-            if want != items:
-                st["meta_gap"] = st.get("meta_gap", 0) + 1
-            continue
         if want != items:
             raise Mismatch("line-mode record %d is %r, expected %r" % (i + 1, items, want))
 
@@ -598,21 +565,13 @@ def compare_text(exp, text, fmt, st):
     for e in exp:
         if fmt:
             d = _Missing((k, slot_value(e, k)) for k in e["names"] + RESERVED)
-            alt = None
-            if e.get("expanded") and "_generated" not in fmt:
-                d2 = _Missing(d)
-                d2.update(_source=None, _classification=None)
-                alt = fmt.format_map(d2)
-            want.append((fmt.format_map(d), alt))
+            want.append(fmt.format_map(d))
         else:
-            want.append(("<%s %s>" % (e["name"], " ".join("%s=%r" % (k, _get(e, k)) for k in e["names"])), None))
+            want.append("<%s %s>" % (e["name"], " ".join("%s=%r" % (k, _get(e, k)) for k in e["names"])))
     if len(lines) != len(want):
         raise Mismatch("%d text lines in the output, expected %d" % (len(lines), len(want)))
-    for i, (a, (b, alt)) in enumerate(zip(lines, want)):
+    for i, (a, b) in enumerate(zip(lines, want)):
         if a != b:
-            if alt is not None and a == alt:
-                st["meta_gap"] = st.get("meta_gap", 0) + 1
-                continue
             raise Mismatch("text line %d is %r, expected %r" % (i, a, b))
 
 
@@ -794,7 +753,7 @@ Definition summ_eqb (a b : list string * string * option string * option string)
 Fixpoint all2 {A : Type} (f : A -> A -> bool) (a b : list A) : bool :=
   match a, b with [], [] => true | x :: a', y :: b' => f x y && all2 f a' b' | _, _ => false end.
 Definition xchk (r : crec) (impl : list (list string * string * option string * option string)) : bool :=
-  all2 summ_eqb (map summ (expand_impl 0 r)) impl.
+  all2 summ_eqb (map summ (expand_impl (f_expand_meta rdump_facts) 0 r)) impl.
 """
 
 
@@ -1200,6 +1159,9 @@ def run(ctx):
         "RecordWriter on every case (ASCII URIs)",
         "argparse (type=int, defaults) is not modelled beyond the defaults read from the add_argument calls; --skip/--count "
         "are natural numbers",
+        "iter_timestamped_records is modelled on concrete records (names, datetime flags, metadata) as expand_impl with the "
+        "GENERATED list of reserved fields the loop copies from the original record; validated record by record against "
+        "what rdump --multi-timestamp wrote",
         "selectors are taken from the fragment on which both engines agree (C07) and never raise (C08); value text forms "
         "(str/repr/format/JSON of a field value) are computed by the field types themselves (C20, C14)",
     ]
@@ -1211,14 +1173,6 @@ def run(ctx):
         m = problems[0]
         ctx.violation(describe(m), m)
         return
-    if st.get("meta_gap"):
-        f = [x for x in kf if x["id"] == "C16-multi-timestamp-drops-metadata"]
-        if f:
-            ctx.known_finding(f[0]["id"], f[0]["what"])
-        else:
-            ctx.violation("--multi-timestamp: %d expanded records lost _source/_classification/_generated" % st["meta_gap"],
-                          dict(kind="multi-timestamp-metadata", count=st["meta_gap"]))
-            return
     failing, err = core.eval_bool_cases(ctx, COQ_HEADER, coq_cases, shard_size=120, name="c16")
     if err:
         ctx.violation("correspondence shards did not evaluate: " + err[:300], dict(kind="coq-eval", log=err), no_input=True)
@@ -1256,7 +1210,7 @@ def replay(obj):
             print("replay: " + describe(bad))
             return 1
         print("replay: rdump %s -> as specified%s" % (" ".join(obj.get("argv", [])[len(obj["sources"]):]),
-                                                     " (multi-timestamp metadata finding reproduced)" if st.get("meta_gap") else ""))
+                                                     ""))
         return 0
     finally:
         shutil.rmtree(work, ignore_errors=True)
